@@ -192,6 +192,13 @@ func FnInt(args ...interface{}) int {
 	return 1000 + len(args)
 }
 
+// FnTyped has typed parameters: literal arguments written in a pattern have to be converted (2 -> float64, 3 -> int64).
+func FnTyped(f float64, n int64, s string) string {
+	rec.Jitter()
+	rec.Hit(PkgID + ".FnTyped")
+	return fmt.Sprintf("FnTyped<%s>(%s,%s,%s)", PkgID, rec.Shallow(f), rec.Shallow(n), rec.Shallow(s))
+}
+
 func FnFail(args ...interface{}) (interface{}, error) {
 	rec.Hit(PkgID + ".FnFail")
 	return nil, errors.New("FnFail<" + PkgID + ">")
